@@ -8,6 +8,7 @@ Delegates to inner command check.
 from __future__ import annotations
 
 from dippy.cli import Classification, HandlerContext
+from dippy.core.allowlists import sets_execution_var
 from dippy.core.bash import bash_join
 
 COMMANDS = ["env"]
@@ -103,6 +104,9 @@ def classify(ctx: HandlerContext) -> Classification:
 
         # Skip VAR=value assignments
         if "=" in token and not token.startswith("-"):
+            name = sets_execution_var(token)
+            if name:
+                return Classification("ask", description=f"env sets {name}")
             i += 1
             continue
 
